@@ -22,8 +22,9 @@ def gen(rng, tier):
     kind = rng.choice(['WFQ', 'WFQ', 'VC'])
     static = kind == 'WFQ' and rng.random() < 0.3
     case = sched.gen_sched_case(rng, tier, kind=kind, static=static, monitor=False)
-    if case.get('mode') == 'GRID' and rng.random() < 0.12:
-        case['t0'] = rng.choice([-100, -7.5, -1000, 64])      # a clock that does not start at zero
+    if case.get('mode') == 'GRID' and rng.random() < 0.15 and 't0' not in case:
+        # a clock that does not start at zero (small negative origins: stamps and instants pass through exactly 0.0)
+        case['t0'] = rng.choice([-100, -7.5, -1000, 64, -2, -1, -4, -0.5, -3, -2, -1])
     if rng.random() < 0.3:
         # equal stamps on purpose: equal weights and sizes, simultaneous arrivals
         v = case['table'][0][1]
